@@ -55,6 +55,40 @@ PLANS = {
         "gen": [gen("cmp", "pairs", ["compare"]), gen("cmp2", "pairs2", ["compare"])],
         "bounds": "all ordered pairs of the 70-document pair universe (number encodings of equal value, 2^53 neighbours, prefixes, length-only and deep differences)",
     },
+    "C08": {
+        "gen": [
+            {"name": "nav", "module": "GenPath", "constants": {"Family": '"nav"'}, "tier_constants": {"quick": {"MaxSteps": "1"}, "thorough": {"MaxSteps": "2"}}},
+            {"name": "filter", "module": "GenPath", "constants": {"Family": '"filter"', "MaxSteps": "0"}},
+            {"name": "pred", "module": "GenPath", "constants": {"Family": '"pred"', "MaxSteps": "0"}},
+            {"name": "err", "module": "GenPath", "constants": {"Family": '"err"', "MaxSteps": "0"}},
+        ],
+        "bounds": "21 documents (scalar roots, empty containers, arrays of objects, container-valued members, number encodings) x navigation step sequences of <= N steps over 26 steps (wildcards, three name spellings, 19 index lists incl. last+-k, ranges, negative and i32-extreme values) and 170 filter steps (6 operators x operand paths x 10 literals, literal-left, path-vs-path, root-relative, &&/|| nesting, exists, nested filters) in 4 positions, 40 stand-alone predicates, arithmetic expressions and 64-bit-overflowing index forms",
+    },
+    "C09": {
+        "gen": [
+            {"name": "paths", "module": "GenSyntax", "constants": {"Family": '"paths"'}},
+            {"name": "pathfaults", "module": "GenSyntax", "constants": {"Family": '"pathfaults"'}},
+            {"name": "soup", "module": "GenSyntax", "constants": {"Family": '"soup"'}, "ops": ["jp_parse"]},
+        ],
+        "bounds": "~600 syntax trees (every step kind with 8 names incl. ones needing quotes, 22 index lists incl. i32 extremes, 23 literals of every scalar kind incl. negative/fractional/exponent/empty-string/escaped, all comparison operators, 14 &&/||/parenthesis/exists nestings, leading-name form, predicates) x 6 spelling styles (3 spacings x 3 keyword cases x quoted/bare names) x 2 float lexeme tables; 13 certainly-invalid edits per tree; all byte soups of <=3 bytes over 20 characters",
+    },
+    "C15": {
+        "gen": [
+            {"name": "nav", "module": "GenPath", "constants": {"Family": '"nav"'}, "tier_constants": {"quick": {"MaxSteps": "1"}, "thorough": {"MaxSteps": "2"}}},
+            {"name": "filter", "module": "GenPath", "constants": {"Family": '"filter"', "MaxSteps": "0"}, "tiers": ("thorough",)},
+            {"name": "pred", "module": "GenPath", "constants": {"Family": '"pred"', "MaxSteps": "0"}},
+            {"name": "pre", "module": "GenPath", "constants": {"Family": '"pre"', "MaxSteps": "0"}},
+        ],
+        "bounds": "the C08 (document, path) universe: for each, all four modes through the Selector API, the three convenience functions, exists/path_exists, predicate_match/path_match, into empty and pre-filled buffers; data and offsets compared with the specification's ModeItems",
+    },
+    "C16": {
+        "gen": [
+            {"name": "kp", "module": "GenSyntax", "constants": {"Family": '"kp"'}},
+            {"name": "kpfaults", "module": "GenSyntax", "constants": {"Family": '"kpfaults"'}},
+            {"name": "soup", "module": "GenSyntax", "constants": {"Family": '"soup"'}, "ops": ["kp_parse"]},
+        ],
+        "bounds": "all key paths of <=2 elements over 16 elements (indices 0, +-1, i32 min/max; plain, multi-byte, quoted, empty-quoted, escaped-quote, backslash, digit-quoted names) plus longer lists x 3 spacings; 8 certainly-invalid edits per path; byte soups",
+    },
     "C10": {
         "gen": [
             {"name": "fault", "module": "GenFault", "constants": {"Family": '"fault"', "Double": "FALSE"}},
@@ -84,6 +118,20 @@ PLANS = {
     "C19": {
         "gen": [gen("serde", "render", ["serde"])],
         "bounds": "the C03 universe: strings of every code-point class as values and keys, every finite number of the boundary set (u64/i64 extremes), nested empty containers",
+    },
+    "C17": {
+        "gen": [gen("edit11", "edit11", EDIT_OPS + ["array_distinct"], tiers=("quick",)),
+                gen("edit", "edit", EDIT_OPS + ["array_distinct"], wq=1, wt=2, tiers=("thorough",)),
+                gen("pairs", "pairs11", ["concat", "array_intersection", "array_except"], tiers=("quick",)),
+                gen("pairs2", "pairs2", ["concat", "array_intersection", "array_except"], tiers=("thorough",)),
+                gen("build", "build", ["build_array", "build_object"]),
+                gen("codec", "codec", ["to_vec"], wq=1, wt=2),
+                {"name": "pre", "module": "GenPath", "constants": {"Family": '"pre"', "MaxSteps": "0"}}],
+        "bounds": "every buffer-writing function on the bounded universes, each call made twice: into an empty buffer and into a buffer that already holds bytes (and, for path selection, earlier offsets); documented error cases included",
+    },
+    "C14": {
+        "gen": [gen("keys", "pairs", ["comparable2"]), gen("keys2", "pairs2", ["comparable2"])],
+        "bounds": "all ordered pairs of the 70-document pair universe and of the 92-document structured universe",
     },
     "C18": {
         "gen": [gen("num", "num", ["num", "num_decode", "casts"]),
